@@ -276,9 +276,6 @@ namespace ratio
 #elif LA_TN
                         leqs[&atm0][&atm1] = get_solver().get_lra_theory().new_leq(a0_end->l, a1_start->l);
                         leqs[&atm1][&atm0] = get_solver().get_lra_theory().new_leq(a1_end->l, a0_start->l);
-                        // we boost propagation..
-                        [[maybe_unused]] bool nc = get_solver().get_sat_core().new_clause({!leqs[&atm0][&atm1], !leqs[&atm1][&atm0]});
-                        assert(nc);
 #endif
                         found = true;
                     }
@@ -295,9 +292,6 @@ namespace ratio
 #elif LA_TN
                 leqs[&atm0][&atm1] = get_solver().get_lra_theory().new_leq(a0_end->l, a1_start->l);
                 leqs[&atm1][&atm0] = get_solver().get_lra_theory().new_leq(a1_end->l, a0_start->l);
-                // we boost propagation..
-                [[maybe_unused]] bool nc = get_solver().get_sat_core().new_clause({!leqs[&atm0][&atm1], !leqs[&atm1][&atm0]});
-                assert(nc);
 #endif
             }
         }
@@ -311,9 +305,6 @@ namespace ratio
 #elif LA_TN
                 leqs[&atm0][&atm1] = get_solver().get_lra_theory().new_leq(a0_end->l, a1_start->l);
                 leqs[&atm1][&atm0] = get_solver().get_lra_theory().new_leq(a1_end->l, a0_start->l);
-                // we boost propagation..
-                [[maybe_unused]] bool nc = get_solver().get_sat_core().new_clause({!leqs[&atm0][&atm1], !leqs[&atm1][&atm0]});
-                assert(nc);
 #endif
             }
         }
@@ -325,9 +316,6 @@ namespace ratio
 #elif LA_TN
             leqs[&atm0][&atm1] = get_solver().get_lra_theory().new_leq(a0_end->l, a1_start->l);
             leqs[&atm1][&atm0] = get_solver().get_lra_theory().new_leq(a1_end->l, a0_start->l);
-            // we boost propagation..
-            [[maybe_unused]] bool nc = get_solver().get_sat_core().new_clause({!leqs[&atm0][&atm1], !leqs[&atm1][&atm0]});
-            assert(nc);
 #endif
         }
     }
